@@ -57,6 +57,10 @@ MActivate(m, p) ==
 \* SourceProxy.__exit__ + Probe._exit
 MDeactivate(m, p) == Push([m EXCEPT !.obs[p] = FALSE, !.cur = m.tok[p]], p, -1)
 
+\* a probe deactivated from inside a call of f (at the point where f calls g): the rest of the call runs under the collection
+\* the probe's token restores; when the call ends, proceed() puts back the collection that was current when it began
+\* (only an instrumented f runs under proceed())
+MDeactInCallEnd(m, p) == IF m.cnt["f"] > 0 THEN [MDeactivate(m, p) EXCEPT !.cur = m.cur] ELSE MDeactivate(m, p)
 IsOrig(m, fn) == m.cnt[fn] = 0
 Instrumented(m, c) == m.cnt[c[1]] > 0 /\ m.caps[c] > 0
 InCur(m) == IF m.cur = None THEN {} ELSE {m.cur[i] : i \in DOMAIN m.cur}
